@@ -8,7 +8,7 @@ from core import hx, exc_name
 from gen import cut
 
 ID = 'C02'
-MODULES = ['Httoop.Props.C02', 'Httoop.Props.C02Pipeline', 'Httoop.Props.C01Pipeline', 'Httoop.Props.C01Mixed']
+MODULES = ['Httoop.Props.C02', 'Httoop.Props.C02Pipeline', 'Httoop.Props.C01Pipeline', 'Httoop.Props.C01Mixed', 'Httoop.Props.C01Trailers']
 THEOREMS = [
 	'Httoop.Parser.splitOnce_crlf',
 	'Httoop.Parser.dechunk_chunk',
@@ -32,6 +32,8 @@ THEOREMS = [
 	'Httoop.Parser.fragmentation_independent',
 	'Httoop.Parser.Mixed.feedAll_prefix',
 	'Httoop.Parser.Mixed.fragmentation_independent',
+	'Httoop.Parser.Mixed.dechunk_trailers',
+	'Httoop.Parser.Mixed.goodX_of_chunkedT',
 ]
 TRUSTED = [
 	'harness/wire.py is an independent RFC 7230 writer (it does not use httoop); the oracle compares deliveries with the writer\'s own records',
